@@ -168,17 +168,36 @@ class MatchesSetwise:
         self.matchers = matchers
 
     def match(self, observed):
-        remaining_matchers = set(self.matchers)
-        not_matched = []
-        for value in observed:
-            for matcher in remaining_matchers:
-                if matcher.match(value) is None:
-                    remaining_matchers.remove(matcher)
-                    break
-            else:
-                not_matched.append(value)
+        observed = list(observed)
+        matchers = list(set(self.matchers))
+        # Find a largest one-to-one assignment of values to matchers (augmenting
+        # paths), so that the verdict does not depend on the order in which
+        # the matchers happen to be tried.
+        owner = {}  # index of matcher -> index of the value assigned to it
+
+        def assign(value_index, tried):
+            for matcher_index, matcher in enumerate(matchers):
+                if matcher_index in tried:
+                    continue
+                if matcher.match(observed[value_index]) is not None:
+                    continue
+                tried.add(matcher_index)
+                if matcher_index not in owner or assign(owner[matcher_index], tried):
+                    owner[matcher_index] = value_index
+                    return True
+            return False
+
+        not_matched = [
+            value
+            for value_index, value in enumerate(observed)
+            if not assign(value_index, set())
+        ]
+        remaining_matchers = [
+            matcher
+            for matcher_index, matcher in enumerate(matchers)
+            if matcher_index not in owner
+        ]
         if not_matched or remaining_matchers:
-            remaining_matchers = list(remaining_matchers)
             # There are various cases that all should be reported somewhat
             # differently.
 
